@@ -385,3 +385,7 @@ add("rd_iterinit_dfcc", ["C03", "C02"], ["tu/reader_dfcc.c"], "h_reader_init_ite
 add("rd_iter_ctor_dfcc", ["C03", "C01"], ["tu/reader_dfcc.c"], "h_reader_iter_ctor_dfcc", mode="dfcc", enforce="reader_iter/reader_iter__spec",
     replace=RD_DFCC_REPL + ["my_calloc/my_calloc__cap", "free/free__cap", "mtbl_iter_init/mtbl_iter_init__cap"], unwind=12, timeout=600, strength="U", functions=["reader_iter", "get_block_at_index"],
     assumptions=["mtbl/block.c functions and get_block replaced by contracts; the plain iterator's constructor establishes the block-identity invariant and wires seek / next / free"])
+add("so_flush_dfcc", ["C06", "C18"], ["tu/sorter_flush_dfcc.c"], "h_sorter_flush_dfcc", mode="dfcc", enforce="_mtbl_sorter_flush/_mtbl_sorter_flush__spec",
+    replace=["calloc/calloc__cap", "entry_vec_init/entry_vec_init__cap", "_mtbl_sorter_write_chunk/_mtbl_sorter_write_chunk__cap", "reader_vec_add/reader_vec_add__cap", "threadpool_dispatch/threadpool_dispatch__cap"],
+    unwind=16, timeout=600, slice=1, strength="U", functions=["_mtbl_sorter_flush", "_mtbl_sorter_get_entry_batch"],
+    assumptions=["allocation, the vector operations, _mtbl_sorter_write_chunk and threadpool_dispatch replaced by capture contracts (chunk writing: so_chunk_*; delivery by the pool: assumed contract of mtbl/threadpool.c)"])
